@@ -279,6 +279,44 @@ func init() {
 			e.Unknown("requestPlay")
 		}
 		emitList(e, "requestPlayCalls", "requestPlay: tracked calls", playCalls)
+		// the stream is built (NewStream starts the conversion workers) only after PLAY was answered with
+		// success: statement order  resp, err := requestWithResponse; if err != nil { return err }; … NewStream …; go playStream
+		stmtWith := func(callee string) int {
+			if pb == nil {
+				return -1
+			}
+			for i, st := range pb.List {
+				found := false
+				ast.Inspect(st, func(x ast.Node) bool {
+					if ce, ok := x.(*ast.CallExpr); ok && (Src(ce.Fun) == callee || strings.HasSuffix(Src(ce.Fun), "."+callee)) {
+						found = true
+					}
+					return !found
+				})
+				if found {
+					return i
+				}
+			}
+			return -1
+		}
+		iReq, iNew, iGo := stmtWith("requestWithResponse"), stmtWith("NewStream"), stmtWith("playStream")
+		errRet := -1
+		if pb != nil {
+			for i, st := range pb.List {
+				if is, ok := st.(*ast.IfStmt); ok && Src(is.Cond) == "err != nil" && len(is.Body.List) == 1 && i > iReq && errRet < 0 {
+					if r, ok := is.Body.List[0].(*ast.ReturnStmt); ok && len(r.Results) == 1 && Src(r.Results[0]) == "err" {
+						errRet = i
+					}
+				}
+			}
+		}
+		after := iReq >= 0 && errRet == iReq+1 && iNew > errRet && iGo > iNew
+		early := iReq >= 0 && iNew >= 0 && iNew < iReq
+		if !after && !early {
+			e.Unknown("streamAfterPlay")
+		}
+		e.P("/-- requestPlay builds the stream only after the PLAY request was answered with success -/")
+		e.P("def streamAfterPlay : Bool := %s", LeanBool(after))
 
 		// ---- playStream: registration, counter, loop, deferred cleanup
 		lb := body(pc, "PullClient", "playStream")
@@ -337,6 +375,27 @@ func init() {
 			e.Unknown("connect")
 		}
 		emitList(e, "connectCalls", "connect: tracked calls", cnCalls)
+
+		// ---- config: the built-in time-outs the pull runs under (the harness shortens them through the verif override)
+		cf := Parse("config/global.go")
+		lastReturn := func(fn string) string {
+			b := body(cf, "", fn)
+			if b == nil || len(b.List) == 0 {
+				return ""
+			}
+			if r, ok := b.List[len(b.List)-1].(*ast.ReturnStmt); ok && len(r.Results) == 1 {
+				return Src(r.Results[0])
+			}
+			return ""
+		}
+		nt, hb := lastReturn("NetTimeout"), lastReturn("NetHeartbeatInterval")
+		if nt == "" || hb == "" {
+			e.Unknown("netTimeoutDefault")
+		}
+		e.P("/-- config.NetTimeout: the value returned when no verif override is set (a read deadline is only set when it is > 0) -/")
+		e.P("def netTimeoutDefault : String := %s", LeanStr(nt))
+		e.P("/-- config.NetHeartbeatInterval: the built-in keep-alive period -/")
+		e.P("def netHeartbeatDefault : String := %s", LeanStr(hb))
 
 		// ---- factory
 		ff := Parse("service/rtsp/pull_stream_factory.go")
